@@ -12,7 +12,7 @@
    signal/slot signature parameters T, T&, const T& (rvalue-reference signature parameters are
    outside the universe: value-returning emitters cannot forward them, see DESIGN.md).
    Definitions only. *)
-From Coq Require Import List Bool String.
+From Coq Require Import List Bool String ZArith.
 Import ListNotations.
 Require Import GenTypes AdaptorModel.
 Local Open Scope string_scope.
@@ -103,7 +103,9 @@ Inductive functor_ty :=
 | TBindLast (f : functor_ty) (v : base)                              (* sigc::bind(f, value of type v) *)
 | THideLast (f : functor_ty)                                         (* sigc::hide(f) *)
 | THideReturn (f : functor_ty)                                       (* sigc::hide_return(f) *)
-| TRetype (f : functor_ty).                                          (* sigc::retype(f): f a ptr_fun / mem_fun / slot *)
+| TRetype (f : functor_ty)                                           (* sigc::retype(f): f a ptr_fun / mem_fun / slot *)
+| THideAt (i : nat) (f : functor_ty)                                 (* sigc::hide<i>(f): argument number i (0-based) is dropped *)
+| TBindAt (i : nat) (f : functor_ty) (v : base).                     (* sigc::bind<i>(f, v): the bound value is inserted at position i *)
 
 Fixpoint forallb2 {A B} (p : A -> B -> bool) (l1 : list A) (l2 : list B) : bool :=
   match l1, l2 with
@@ -120,6 +122,8 @@ Fixpoint result_of (f : functor_ty) : rtype :=
   | THideLast g => result_of g
   | THideReturn _ => None
   | TRetype g => result_of g
+  | THideAt _ g => result_of g
+  | TBindAt _ g _ => result_of g
   end.
 
 (* C05's criterion: the arguments ... *)
@@ -137,6 +141,12 @@ Fixpoint callable_args (f : functor_ty) (args : list argexpr) : bool :=
       | TMemBound rel oc mc ps _ => memptr_doc rel && (mc || negb oc) && forallb2 explicit_ok ps args
       | _ => false                                   (* retype() only accepts ptr_fun / mem_fun / slot *)
       end
+  | THideAt i g =>
+      (* position i must name one of the arguments; the others are handed on in order *)
+      Nat.ltb i (List.length args) && callable_args g (firstn i args ++ skipn (S i) args)
+  | TBindAt i g v =>
+      (* position i may be one past the last argument; the stored copy is passed as T_type&, as for TBindLast *)
+      Nat.leb i (List.length args) && callable_args g (firstn i args ++ [mkAE v false] ++ skipn i args)
   end.
 
 (* ... and the result *)
@@ -153,7 +163,9 @@ Definition tpass (m : hop_mode) (deduced : bool) (args : list argexpr) : list ar
   | _ => args
   end.
 
-Fixpoint lib_call_args (M : mtable) (P : memptr_pass) (f : functor_ty) (deduced : bool) (args : list argexpr) : bool :=
+(* S: the arithmetic with which the positional adaptors cut the argument tuple (tuple_start<>/tuple_end<>
+   template arguments, regenerated from the source); a negative count is a compile error *)
+Fixpoint lib_call_args (M : mtable) (P : memptr_pass) (S : stable) (f : functor_ty) (deduced : bool) (args : list argexpr) : bool :=
   match f with
   | TFun ps _ =>
       forallb2 binds ps (tpass (mode_of M "adaptor_functor") deduced args)
@@ -161,12 +173,12 @@ Fixpoint lib_call_args (M : mtable) (P : memptr_pass) (f : functor_ty) (deduced 
       memptr_lib P rel && (mc || negb oc) && forallb2 binds ps (tpass (mode_of M "bound_mem_functor") deduced args)
   | TBindLast g v =>
       let a := tpass (mode_of M "bind_functor<-1>") deduced args in
-      lib_call_args M P g true (a ++ [mkAE v false])
+      lib_call_args M P S g true (a ++ [mkAE v false])
   | THideLast g =>
       let a := tpass (mode_of M "hide_functor") deduced args in
-      match a with [] => false | _ => lib_call_args M P g true (removelast a) end
+      match a with [] => false | _ => lib_call_args M P S g true (removelast a) end
   | THideReturn g =>
-      lib_call_args M P g true (tpass (mode_of M "retype_return_functor<void>") deduced args)
+      lib_call_args M P S g true (tpass (mode_of M "retype_return_functor<void>") deduced args)
   | TRetype g =>
       let a := tpass (mode_of M "retype_functor") deduced args in
       match g with
@@ -174,21 +186,45 @@ Fixpoint lib_call_args (M : mtable) (P : memptr_pass) (f : functor_ty) (deduced 
       | TMemBound rel oc mc ps _ => memptr_lib P rel && (mc || negb oc) && forallb2 explicit_ok ps a
       | _ => false
       end
+  | THideAt i g =>
+      let a := tpass (mode_of M "hide_functor") deduced args in
+      match slice_counts S "hide_functor" (Z.of_nat i) (List.length a) with
+      | Some (s, e) =>
+          Nat.leb s (List.length a) && Nat.leb e (List.length a) && lib_call_args M P S g true (firstn s a ++ lastn e a)
+      | None => false
+      end
+  | TBindAt i g v =>
+      let a := tpass (mode_of M "bind_functor") deduced args in
+      match slice_counts S "bind_functor" (Z.of_nat i) (List.length a) with
+      | Some (s, e) =>
+          Nat.leb s (List.length a) && Nat.leb e (List.length a)
+          && lib_call_args M P S g true (firstn s a ++ [mkAE v false] ++ lastn e a)
+      | None => false
+      end
   end.
 
-Definition lib_call (M : mtable) (P : memptr_pass) (f : functor_ty) (deduced : bool) (args : list argexpr) (r : rtype) : bool :=
-  lib_call_args M P f deduced args && result_ok (result_of f) r.
+Definition lib_call (M : mtable) (P : memptr_pass) (S : stable) (f : functor_ty) (deduced : bool) (args : list argexpr) (r : rtype) : bool :=
+  lib_call_args M P S f deduced args && result_ok (result_of f) r.
 
 (* slot<R(A...)>(f) / signal<R(A...)>::connect(f): call_it instantiates the outermost operator()
    with explicit template arguments take_t<A>... *)
-Definition lib_accepts (M : mtable) (P : memptr_pass) (sig_args : list ptype) (r : rtype) (f : functor_ty) : bool :=
-  forallb sig_param_ok sig_args && lib_call M P f false (map take sig_args) r.
+Definition lib_accepts (M : mtable) (P : memptr_pass) (S : stable) (sig_args : list ptype) (r : rtype) (f : functor_ty) : bool :=
+  forallb sig_param_ok sig_args && lib_call M P S f false (map take sig_args) r.
 
 Definition tmodes_ok (M : mtable) : bool :=
   forallb (fun k => match mode_of M k with ByValue => false | _ => true end)
-    ["adaptor_functor"; "bound_mem_functor"; "bind_functor<-1>"; "hide_functor"; "retype_return_functor<void>"; "retype_functor"].
+    ["adaptor_functor"; "bound_mem_functor"; "bind_functor<-1>"; "hide_functor"; "retype_return_functor<void>"; "retype_functor";
+     "bind_functor"].
 
 Definition memptr_ok (P : memptr_pass) : bool := match P with MPImplicit => true | _ => false end.
+
+(* a counter-model for the slicing obligation: expected_slices, except that hide_functor's tail count is
+   clamped at zero when the position equals the number of arguments (instead of going negative) *)
+Definition clamped_hide_slices : stable :=
+  [ ("bind_functor", [("tuple_start", ALoc); ("tuple_end", ASub ASize ALoc)])
+  ; ("hide_functor", [("tuple_start", AIf (AEq ALoc (ANeg (AConst 1))) (ASub ASize (AConst 1)) ALoc);
+                      ("tuple_end", AIf (AEq (ASub ASize ALoc) (AConst 0)) (AConst 0)
+                                        (ASub (ASub ASize ALoc) (AConst 1)))]) ].
 
 (* Explicit conversions on the typed call path (functors/, adaptors/, signal.h, ...): the model
    accounts for exactly these; any other explicit cast in the regenerated table is a conversion the
